@@ -61,6 +61,7 @@ pub fn schema(phase: &str) -> Option<Sch> {
         "ALSZ_OT_setup" => seq(Bytes),
         "KOS_OT_x_t0_t1" => seq(Tup(vec![Arr(16), Arr(16), Arr(16)])),
         "KOS_OT_corr" => seq(Arr(16)),
+        "KOS_OT_seed" => seq(U8),
         "fabitn" => seq(Tup(vec![Bool, U128])),
         "fashare comm" => seq(Tup(vec![Arr(32), Arr(32), Arr(32)])),
         "fashare ver" => seq(Bytes),
